@@ -135,7 +135,15 @@ def oracle_c16(cases, results):
             m = res["mod"].get(i, "")
             if m.startswith("PANIC"):
                 site = L.unesc(m[6:])
-            fails.append({"source": src.get(i, ""), "what": "derive panicked: " + L.unesc(line[6:])[:120], "site": site, "detail": {"model": m[:200]}})
+            msg = L.unesc(line[6:])
+            if site is None:
+                # the model declined (unsupported fragment): fall back to the panic message for the class
+                mm = re.search(r"unreachable code: (\d+)", msg)
+                if mm:
+                    site = f"message:unreachable({mm.group(1)})"
+                elif "not yet implemented" in msg:
+                    site = "message:todo"
+            fails.append({"source": src.get(i, ""), "what": "derive panicked: " + msg[:120], "site": site, "detail": {"model": m[:200]}})
     return fails
 
 
@@ -933,6 +941,10 @@ def classify_failure(prop, f, known):
         cls = k.get("class", {})
         if "panic_site" in cls and f.get("site") == cls["panic_site"]:
             return k
+        if "panic_site" in cls and str(f.get("site", "")).startswith("message:"):
+            tag = f["site"][len("message:"):]
+            if cls["panic_site"].endswith(tag) or (tag == "todo" and cls["panic_site"].endswith(":todo")):
+                return k
         if "source_regex" in cls and re.search(cls["source_regex"], f.get("source", "")) and cls.get("what", "") in f.get("what", ""):
             return k
     return None
